@@ -95,7 +95,7 @@ def gen_pattern_settings(rng):
 
 def batches(tier, seed):
     rng = rng_for(seed, 'C10')
-    n = 160 if tier == 'quick' else 2500
+    n = 260 if tier == 'quick' else 3000
     cases = []
     for i in range(n):
         c = matcase.gen(rng, max_src=2, max_tgt=3, overrides=False) if rng.random() < 0.55 else gen_pattern_settings(rng)
